@@ -410,6 +410,14 @@ def poc_frechet_direct_path(force, ret_details=False):
     contact point. For shorter baselines, the contact point will
     be closer to the point of maximum indentation.
     """
+    if force.size == 0:
+        # There are no data to work with (e.g. because the force maximum
+        # is located at the first data point).
+        if ret_details:
+            return np.nan, {}
+        else:
+            return np.nan
+
     x = np.linspace(0, 1, len(force), endpoint=True)
     y = (force - force.min()) / (force.max() - force.min())
 
